@@ -1520,6 +1520,7 @@ def main():
     ap.add_argument("--workdir", required=True)
     ap.add_argument("--only", default=None)
     ap.add_argument("--replay", default=None)
+    ap.add_argument("--build-only", action="store_true")
     ap.add_argument("--jobs", type=int, default=int(os.environ.get("VERIF_E2_JOBS", "12")))
     a = ap.parse_args()
     t0 = time.time()
@@ -1536,6 +1537,9 @@ def main():
         result["error"] = "cannot build the instrumented egglog binary: %s" % e
         json.dump(result, open(a.out, "w"))
         return 2
+    if a.build_only:
+        log("built", binary)
+        return 0
     if a.replay:
         rep, note = replay_artefact(binary, a.replay, a.workdir)
         print(note)
